@@ -12,7 +12,7 @@ def run(tier):
     ridges = [b for b in beh if '"ridge-shapes"' in b[:600]]
     if not ridges: raise tlc.SetupError("Motion.tla emitted no ridge-shape behaviours")
     trench = [b for b in beh if '"trench-shapes"' in b[:600]]
-    beh = [b for b in beh if '"trench-shapes"' not in b[:600]] + (trench[c.seed % 11::11] if quick else trench[c.seed % 2::2])
+    beh = [b for b in beh if '"trench-shapes"' not in b[:600]] + [b for b in trench if replay.pick(b, 11 if quick else 2, c.seed)]
     if not quick:
         sim = tlc.run("Motion.tla", "Motion_sim.cfg", workers=8, timeout=3000, heap="16g", simulate=60, depth=8, seed=c.seed)
         c.add_tlc(sim, "simulated trenches of up to 6 points on the 4x4 lattice")
